@@ -173,6 +173,10 @@ def cop(op):
         return "OSnapP %d" % op[1]
     if t == "clone":
         return "OClone %d" % op[1]
+    if t == "view":
+        def copt(x):
+            return "None" if x is None else "(Some %s)" % cnum(x)
+        return "OView %d %s %s %s" % (op[1], copt(op[2]), copt(op[3]), clist(cnum(x) for x in op[4]))
     raise ValueError(t)
 
 
@@ -204,7 +208,7 @@ def cfop(op):
 
 
 HEADER = """From Coq Require Import ZArith List String.
-From Hgm Require Import NumOps F64 Xq Agg Ops Expr Build Snap Json Eq Run Forest RunId Fcn RunFcn.
+From Hgm Require Import NumOps F64 Xq Agg Ops Expr Build Snap Json Eq Np Views Run Forest RunId Fcn RunFcn.
 Import ListNotations.
 Open Scope Z_scope. Open Scope string_scope.
 Set Printing Width 100000000. Set Printing Depth 100000000.
